@@ -7,3 +7,4 @@ pub mod tz;
 pub mod fmt;
 pub mod exact;
 pub mod relround;
+pub mod zoned;
